@@ -2,7 +2,7 @@
 from __future__ import annotations
 import ast
 from ..absint import Interp, Const, Sgn, sign_of, TOP, Obj
-from ..cp import StepCP, is_zero, batch, row_writers
+from ..cp import StepCP, is_zero, batch, row_writers, step_local
 from ..flags import DOMAINS
 from ..da import local_literal_domains
 from ..effects import stores
@@ -23,7 +23,8 @@ EXPLANATION = (
 def run(chk, prog, tier):
     # ---------------------------------------------------------------- C04.a / C04.b (one batch, parallel)
     configs = [{}] + [{"IrrMngt.irrigation_method": m} for m in range(6)]
-    res = batch(prog, configs, want_locals=["Irr"])
+    irr_name = step_local(prog, "irr")
+    res = batch(prog, configs, want_locals=[irr_name])
     base = res[0]
     step_key = STEP_FN
     chk.fn(step_key)
@@ -50,7 +51,7 @@ def run(chk, prog, tier):
             chk.error(f"C04.b: no in-season partition for irrigation_method={m}")
             continue
         for loc in parts:
-            v = loc["Irr"]
+            v = loc[irr_name]
             sg = sign_of(v)
             construct = f"Irr reaching the row | irrigation_method={m}"
             if sg in ("+", "0"):
